@@ -8,61 +8,38 @@ use program_structure::file_definition::FileID;
 pub fn preprocess(expr: &str, file_id: FileID) -> Result<String, Box<Report>> {
     let mut pp = String::new();
     let mut state = 0;
-    let mut loc = 0;
     let mut block_start = 0;
 
-    let mut it = expr.chars();
-    while let Some(c0) = it.next() {
-        loc += 1;
+    let mut it = expr.char_indices().peekable();
+    while let Some((loc, c0)) = it.next() {
         match (state, c0) {
-            (0, '/') => {
-                loc += 1;
-                match it.next() {
-                    Some('/') => {
-                        state = 1;
-                        pp.push(' ');
-                        pp.push(' ');
-                    }
-                    Some('*') => {
-                        block_start = loc;
-                        state = 2;
-                        pp.push(' ');
-                        pp.push(' ');
-                    }
-                    Some(c1) => {
-                        pp.push(c0);
-                        pp.push(c1);
-                    }
-                    None => {
-                        pp.push(c0);
-                        break;
-                    }
+            (0, '/') => match it.peek() {
+                Some((_, '/')) => {
+                    it.next();
+                    state = 1;
+                    pp.push(' ');
+                    pp.push(' ');
                 }
-            }
+                Some((_, '*')) => {
+                    it.next();
+                    block_start = loc;
+                    state = 2;
+                    pp.push(' ');
+                    pp.push(' ');
+                }
+                _ => pp.push(c0),
+            },
             (0, _) => pp.push(c0),
             (1, '\n') => {
                 pp.push(c0);
                 state = 0;
             }
             (2, '*') => {
-                loc += 1;
-                match it.next() {
-                    Some('/') => {
-                        pp.push(' ');
-                        pp.push(' ');
-                        state = 0;
-                    }
-                    Some(c) => {
-                        pp.push(' ');
-                        for _i in 0..c.len_utf8() {
-                            pp.push(' ');
-                        }
-                    }
-                    None => {
-                        let error =
-                            UnclosedCommentError { location: block_start..block_start, file_id };
-                        return Err(Box::new(error.into_report()));
-                    }
+                pp.push(' ');
+                if let Some((_, '/')) = it.peek() {
+                    it.next();
+                    pp.push(' ');
+                    state = 0;
                 }
             }
             (_, c) => {
@@ -71,6 +48,11 @@ pub fn preprocess(expr: &str, file_id: FileID) -> Result<String, Box<Report>> {
                 }
             }
         }
+    }
+    if state == 2 {
+        // The input ended inside a block comment.
+        let error = UnclosedCommentError { location: block_start..block_start + 2, file_id };
+        return Err(Box::new(error.into_report()));
     }
     Ok(pp)
 }
